@@ -59,7 +59,8 @@ def prog_lines(p):
     """program dict -> script lines for harness/testrun.cpp"""
     b = lambda x: "1" if x else "0"
     draws = "-" if p.get("draws") is None else (",".join(str(d) for d in p["draws"]) + ",")
-    lines = [["cfg", p["repeat"], b(p["reverse"]), (p.get("seed", 7) if p["shuffle"] else "-"), b(p["runIgnored"]), draws, "api" if p.get("api") else "cmd", p.get("list", "none")]]
+    lines = [["cfg", p["repeat"], b(p["reverse"]), (p.get("seed", 7) if p["shuffle"] else "-"), b(p["runIgnored"]), draws, ("apiE" if p.get("early") else "api") if p.get("api") else "cmd", p.get("list", "none"),
+              "nest" if p.get("nest") else "-"]]
     for f in p["gf"]:
         lines.append(["gf", f[0], b(f[1]), b(f[2])])
     for f in p["nf"]:
